@@ -234,10 +234,21 @@ func (r *Recorder) onFatal(inc *Incarnation, where, stack string) {
 		return
 	}
 	prop := "C14"
+	cause := r.tainted(n, where, "F2", "F3")
 	if r.c.Cfg.ApiFuzz {
 		prop = "C18"
+		// The API fuzzer also changes the membership; F4 (configurations adopted at different
+		// times) can split the history there as in the membership profile. A node that then finds
+		// its log truncated underneath a snapshot in progress aborts: a consequence, if a
+		// divergence was already observed in this run.
+		for cl := range r.seenClass {
+			if strings.Contains(cl, "/committed-divergence/") || strings.Contains(cl, "/two-leaders/") || strings.Contains(cl, "/truncated-committed/") {
+				cause += "+F4"
+				break
+			}
+		}
 	}
-	r.violate(prop, "fatal", r.tainted(n, where, "F2", "F3"), "%s aborted with an internal fatal error in %s\n%s", inc.Name(), where, trimStack(stack))
+	r.violate(prop, "fatal", cause, "%s aborted with an internal fatal error in %s\n%s", inc.Name(), where, trimStack(stack))
 }
 
 // ------------------------------------------------------------------ snapshots
